@@ -166,8 +166,8 @@ sharness! {
         let mut p = any_pkt5();
         let sel: u8 = kani::any();
         let mut out = (false, false, false, PV::V4);
-        let mut run = |b0: u8, b12: u8, b14: u8, b15: u8| {
-            p.set_hdr(b0, b12, b14, b15);
+        let mut run = |b0: u8, b12: u8, b14: u8, b15: u8, last: u8| {
+            p.set_hdr(b0, b12, b14, b15, last);
             out = incoming_body(&mut src, &pre, p.bytes());
         };
         for_v5hdr!(all, sel, run);
